@@ -4,7 +4,7 @@ from ural.utils import SplitResult, urlunsplit, urlsplit, unsplit_netloc
 from ural.infer_redirection import infer_redirection as resolve
 from ural.ensure_protocol import ensure_protocol
 from ural.tld import split_suffix
-from ural.quote import upper_quoted
+from ural.canonicalize_url import canonicalize_url
 
 LANG_QUERY_KEYS = ("gl", "hl")
 
@@ -66,6 +66,13 @@ def get_fingerprinted_hostname(url, infer_redirection=True, strip_suffix=False):
 
 
 def fingerprint_url(url, unsplit=True, strip_suffix=False, platform_aware=False):
+    # NOTE: the url is canonicalized before being lowercased, else letters that
+    # are quoted would escape the lowercasing, then the heuristics below
+    try:
+        url = canonicalize_url(url)
+    except ValueError:
+        pass
+
     url = url.lower()
 
     splitted = normalize_url(
@@ -75,11 +82,6 @@ def fingerprint_url(url, unsplit=True, strip_suffix=False, platform_aware=False)
         platform_aware=platform_aware,
     )
     _, netloc, path, query, fragment = splitted
-
-    # NOTE: letters that were quoted in the url escaped the lowercasing above
-    path = upper_quoted(path.lower())
-    query = upper_quoted(query.lower())
-    fragment = upper_quoted(fragment.lower())
 
     user, password, hostname, port = (
         splitted.username,
